@@ -40,7 +40,7 @@ def oracle(case):
     if case["mode"] != "funcs" and any(w["kind"] == "error" and w.get("form") is not None for w in exp.responses):
         nt = True
         classes.append("error-through-custom-dispatch")
-    return Info(nt=nt, classes=classes, key=(text, case["version"], case["jsonclass"], case["mode"]),
+    return Info(nt=nt, classes=classes, key=(text, case["version"], case["jsonclass"], case["mode"], case.get("handlers")),
                 sample={"body": text[:300], "version": case["version"], "mode": case["mode"], "reply": (out or "")[:300]})
 
 
